@@ -68,6 +68,28 @@ def gen_histories(pid, rng, n, types=None):
     return hs
 
 
+def exhaustive_histories(ty, order, keys, length, allow_delete=True):
+    """EVERY sequence of `length` operations over insert/delete of the given keys, each
+    followed by a closing sweep (snapshot, lookups of every key, scans from every key)."""
+    import itertools
+    ops = ["ins %s 1" % k for k in keys] + (["del %s" % k for k in keys] if allow_delete else [])
+    tail = ["snap"] + ["get %s" % k for k in keys] + ["scan %s -1" % k for k in keys]
+    for seq in itertools.product(ops, repeat=length):
+        yield ["begin", "new %s %d" % (ty, order)] + list(seq) + tail
+
+
+def exhaustive_suite(pid):
+    hs = []
+    k5 = ["1", "2", "3", "4", "5"]
+    # order 4: all length-6 sequences over 5 keys would be 10^6; take length 5 (100k) plus
+    # length 7 over 3 keys (6^7 = 280k) to reach merges after splits
+    hs += list(exhaustive_histories("i64", 4, k5, 5))
+    hs += list(exhaustive_histories("i64", 4, ["1", "2", "3"], 7))
+    hs += list(exhaustive_histories("cmp", 4, ["1", "1#1", "2", "3#2", "4"], 5))
+    hs += list(exhaustive_histories("str", 2, ["_", "97", "97.98", "98"], 6, allow_delete=False))
+    return hs
+
+
 def relevant_failures(pid, res):
     out = []
     lines = res["lines"]
@@ -182,6 +204,11 @@ def _check(pid, tier, sc, t0, extra_hook, sink=None):
     if pid == "C12":
         n = n // 6
     hs = load_corpus(pid) + gen_histories(pid, rng, n)
+    exhaustive_n = 0
+    if tier == "thorough" and pid in ("C01", "C02", "C08"):
+        ex = exhaustive_suite(pid)
+        exhaustive_n = len(ex)
+        hs = hs + ex
     if extra_hook:
         hs = extra_hook(rng, tier) + hs
     results = vlib.run_seq_parallel(bindir, sc, "main", hs)
@@ -253,6 +280,8 @@ def _check(pid, tier, sc, t0, extra_hook, sink=None):
                samples=samples, traces_validated_against_impl=len(results),
                disagreements_checked=sum(1 for r in results if r["mismatch"]),
                known_findings=sorted(known_hits), search_histories=searched, distribution=st,
+               exhaustive_histories=exhaustive_n,
+               exhaustive_note=("every sequence of 5 insert/delete operations over 5 keys (i64 and Comparable with order-equivalent keys), every sequence of 7 over 3 keys at order 4, every sequence of 6 inserts over 4 string keys at order 2; each followed by a snapshot, all lookups and scans from every key" if exhaustive_n else ""),
                proof_problems=proof["problems"])
     assumptions = ["callbacks are pure; single goroutine", "Go slice semantics as modelled in Slice.lean"]
     if sink is not None:
